@@ -1,6 +1,6 @@
 #!/bin/bash
 # run every registered quick check with several seeds on the unchanged tree; print one line per run
-cd /verif
+cd "$(dirname "$0")/.."
 ids=$(python3 -c "import json;print(' '.join(c['property_id'] for c in json.load(open('MANIFEST.json'))['checks']))")
 for s in ${SEEDS:-1 2 3}; do
   for id in $ids; do
